@@ -38,6 +38,24 @@ func (e *AccessorExpr) Evaluate(engine *Engine, input interface{}, args []*State
 		}
 		returnType := e.getReturnType(accessor, reflect.New(t).Interface())
 
+		// The type of the result is not known when the elements of the slice
+		// do not all have to be the same type (such as Warnings or Nodes). In
+		// this case each of the elements has to be evaluated on its own.
+		if returnType == nil {
+			results := []interface{}{}
+
+			for i := 0; i < in.Len(); i++ {
+				result, err := e.Evaluate(engine, in.Index(i).Interface(), nil)
+				if err != nil {
+					return nil, err
+				}
+
+				results = append(results, result)
+			}
+
+			return results, nil
+		}
+
 		results := reflect.MakeSlice(reflect.SliceOf(returnType), 0, 0)
 
 		for i := 0; i < in.Len(); i++ {
